@@ -450,7 +450,11 @@ def install(ctx):
     _hooks["_make_pianoroll"] = h
 
     # ---------------------------------------------------------------- compute_pianoroll
+    _meta = {"busy": False}
+
     def pre_compute(*a, **k):
+        if _meta["busy"]:
+            return None
         _last.pop("make", None)
         _last.pop("make_td", None)
         return None
@@ -479,6 +483,27 @@ def install(ctx):
             c.ambiguous()
             if _last.get("make_td") is None:
                 return
+            if o["time_unit"] == "auto" and exc is None and not _meta.get("busy"):
+                # which resolution 'auto' means is not documented, but it belongs to the unit that is used: leaving the
+                # unit to the library or naming that unit oneself has to give the same roll
+                _meta["busy"] = True
+                try:
+                    keep_make, keep_td = _last.get("make"), _last.get("make_td")
+                    k2 = dict(k, time_unit=unit)
+                    k2.pop("return_idxs", None)
+                    try:
+                        other = _hooks["compute_pianoroll"].orig(*a, **dict(k2, return_idxs=False))
+                    except Exception:
+                        other = None
+                    _last["make"], _last["make_td"] = keep_make, keep_td
+                finally:
+                    _meta["busy"] = False
+                mine = ret[0] if isinstance(ret, tuple) else ret
+                c.check()
+                if other is not None and hasattr(mine, "shape") and mine.shape != other.shape:
+                    c.violation("auto-resolution-depends-on-how-the-unit-was-chosen",
+                                f"time_unit='auto' (using {unit}) with time_div='auto' gives shape {mine.shape}, time_unit={unit!r} gives {other.shape}",
+                                {"unit": unit, "columns": list(na.dtype.names)})
             o["time_div"] = _last["make_td"]
         try:
             o["time_div"] = int(o["time_div"])
